@@ -13,11 +13,13 @@ for arg in ids:
         t0 = time.time()
         log = '/tmp/thcal/%s_%s.log' % (pid, u['name'])
         with open(log, 'w') as f:
+            pr = subprocess.Popen(['./check', pid, '--tier', 'thorough', '--unit', u['name'], '-v'], cwd='/verif', stdout=f, stderr=subprocess.STDOUT, start_new_session=True)
             try:
-                rc = subprocess.run(['./check', pid, '--tier', 'thorough', '--unit', u['name'], '-v'], cwd='/verif', stdout=f, stderr=subprocess.STDOUT, timeout=1500).returncode
+                rc = pr.wait(timeout=1500)
             except subprocess.TimeoutExpired:
                 rc = 'TIMEOUT'
-                subprocess.run('pkill gosmt; pkill z3; pkill cvc5', shell=True)
+                os.killpg(pr.pid, 15)  # only this run's process group (never other checks running on the machine)
+                pr.wait()
         out = open(log).read()
         m = re.findall(r'paths=(\d+)', out)
         notes = [l[:160] for l in out.splitlines() if l.startswith(('VIOLATION', 'INCONCLUSIVE', 'UNCONFIRMED', 'ENCODER'))]
